@@ -464,8 +464,10 @@ META = {
                   "operations": OPNAMES, "fault kinds": ["disconnect (connection dead afterwards)", "ordinary DBAPI error"],
                   "fault position": "any DBAPI call after the pre-state (symbolic call number), including the final release of all holders",
                   "clock": "frozen between operations (amb=0) or +1 per time() call (amb=1: 1 operation, and 2 operations from pre-state idle+checkout); tick amount symbolic in 0..pool_recycle+1"},
-        "thorough": {"history": "cold: <=3 operations/1 fault, <=2 operations/2 faults; warm: <=3 operations with <=2 faults (amb 0/1 for <=1 fault), "
-                                "4 operations/1 fault and 5 operations/1 fault without drop_gc/server_restart for (pre_ping, recycle) in {(True,-1),(False,2)}"},
+        "thorough": {"history": "cold: <=3 operations/1 fault, <=2 operations/2 faults; warm pre-states: <=3 operations/1 fault and <=2 operations/2 faults for all 4 "
+                                "configurations (amb 0/1 up to 2 operations); 3 operations/2 faults and 4 operations/1 fault from the pre-state idle+checkout, "
+                                "without drop_gc/server_restart, for (pre_ping, recycle) in {(True,-1),(False,2)}; histories of 5 operations are not explored "
+                                "(path count beyond the budget)"},
     },
     "outside": ["thread interleavings (see C25)", "Pool.dispose() on a pool with live checkouts (documented unsupported; drives checkedout() to -1) -- only Engine.dispose() "
                 "is in the alphabet and the counters of a pool generation disposed with live checkouts are not examined",
@@ -512,9 +514,9 @@ def harnesses(tier: str) -> List[Harness]:
     else:
         hs.append(Harness("pool_cold_1fault", h_pool1, _slices(1, 0, pres=(0,)) + _slices(2, 0, pres=(0,)) + _slices(3, 0, pres=(0,)), budget_s=1500))
         hs.append(Harness("pool_cold_2faults", h_pool2, _slices(1, 0, pres=(0,)) + _slices(2, 0, pres=(0,)), budget_s=1500))
-        hs.append(Harness("pool_1fault", h_pool1, _slices(1, 0, (0, 1), warm) + _slices(2, 0, (0, 1), warm) + _slices(3, 0, (0, 1), warm), budget_s=1500))
-        hs.append(Harness("pool_2faults", h_pool2, _slices(1, 0, (0, 1), warm) + _slices(2, 0, (0, 1), warm) + _slices(3, 0, (0,), warm), budget_s=1500))
-        hs.append(Harness("pool_1fault_long", h_pool1_long, _slices(4, 0, (0,), (2, 3), TWO_CFG) + _slices(5, 1, (0,), (2,), TWO_CFG), budget_s=2500))
+        hs.append(Harness("pool_1fault", h_pool1, _slices(1, 0, (0, 1), warm) + _slices(2, 0, (0, 1), warm) + _slices(3, 0, (0,), warm), budget_s=1500))
+        hs.append(Harness("pool_2faults", h_pool2, _slices(1, 0, (0, 1), warm) + _slices(2, 0, (0, 1), warm) + _slices(3, 1, (0,), (2,), TWO_CFG), budget_s=1500))
+        hs.append(Harness("pool_1fault_long", h_pool1_long, _slices(4, 1, (0,), (2,), TWO_CFG), budget_s=2500))
     return hs
 
 
